@@ -56,13 +56,18 @@ def run(ctx, rep) -> None:
         ok = "reset_stage_to_terminal(s, end_time)" in t and "CompleteStage(" in t and "self._apply_jump(" in t
         rep.check(ok, "C15.R1", "a spent budget fails the source stage terminally", "reset_stage_to_terminal + CompleteStage through _apply_jump (one transaction)", "src/stabilize/handlers/jump_to_stage/handler.py", lim[0].lineno, disc="terminal")
     # ---- R2 --------------------------------------------------------------------------------------
-    for label, fn in (("_check_jump_count", cj), ("on_stage", on)):
-        t = norm(fn)
-        chain = ('max_jumps = execution.context.get("_max_jumps")' in t.replace("'", '"') and 'max_jumps = source_stage.context.get("_max_jumps")' in t.replace("'", '"') and "max_jumps = DEFAULT_MAX_JUMPS" in t
-                 and t.count("if max_jumps is None:") >= 2)
-        rep.check(chain, "C15.R2", f"{label}: max_jumps resolution order", "execution context -> source stage context -> DEFAULT_MAX_JUMPS, each behind `is None`", "src/stabilize/handlers/jump_to_stage/handler.py", fn.lineno, disc=f"chain:{label}")
-        jc = 'jump_count = source_stage.context.get("_jump_count", 0)' in t.replace("'", '"')
-        rep.check(jc, "C15.R2", f"{label}: count read from the source stage", "jump_count = source_stage.context.get('_jump_count', 0)", "src/stabilize/handlers/jump_to_stage/handler.py", fn.lineno, disc=f"count:{label}")
+    from ..chain import resolve
+    jcls = prog.cls(JH, "JumpToStageHandler")
+    want_max = [("first", "execution.context[_max_jumps]"), ("none", "source_stage.context[_max_jumps]"), ("none", "DEFAULT_MAX_JUMPS")]
+    want_cnt = [("first", "source_stage.context[_jump_count]"), ("missing", "0")]
+    for label, q in (("_check_jump_count", "JumpToStageHandler._check_jump_count"), ("on_stage", "JumpToStageHandler._handle_with_retry.on_stage")):
+        fi_ = prog.func(JH, q)
+        ch = resolve(prog, fi_, "max_jumps", self_cls=jcls)
+        rep.check(ch == want_max, "C15.R2", f"{label}: max_jumps resolution order", "execution context -> source stage context -> DEFAULT_MAX_JUMPS, each consulted only when the previous is None (0 disables jumps)"
+                  if ch == want_max else f"max_jumps resolves as {ch}: expected workflow setting, else stage setting, else default, each behind an `is None` test (a falsy test turns 0 into the next source)",
+                  "src/stabilize/handlers/jump_to_stage/handler.py", fi_.node.lineno, disc=f"chain:{label}")
+        cc = resolve(prog, fi_, "jump_count", self_cls=jcls)
+        rep.check(cc == want_cnt, "C15.R2", f"{label}: count read from the source stage", f"jump_count resolves as {cc}", "src/stabilize/handlers/jump_to_stage/handler.py", fi_.node.lineno, disc=f"count:{label}")
     d = prog.module(JH).assigns.get("DEFAULT_MAX_JUMPS")
     rep.check(isinstance(d, ast.Constant) and d.value == 10, "C15.R2", "DEFAULT_MAX_JUMPS = 10", norm(d) if d is not None else "missing", "src/stabilize/handlers/jump_to_stage/handler.py", getattr(d, "lineno", 0), disc="default")
     t = norm(on).replace("'", '"')
@@ -149,6 +154,21 @@ def run(ctx, rep) -> None:
                         ok = any(v in conj for v in all_vars) or any(is_all(c) for c in conj)
                         line = i.lineno
         rep.check(ok, "C15.R5", f"{fnname}: fan-in boundary", "a stage joins the scope only if ALL of its prerequisites are in scope", tv.relpath, line, disc=fnname)
+        # the scope is a least fixed point: the scan is repeated until nothing is added (a single sweep depends on the declaration order of the stages)
+        def _enclosed_by_while(fn, target) -> bool:
+            def rec(node, inside):
+                for ch in ast.iter_child_nodes(node):
+                    if ch is target:
+                        return inside
+                    r = rec(ch, inside or isinstance(ch, ast.While))
+                    if r is not None:
+                        return r
+                return None
+            return bool(rec(fn, False))
+        recursive = any(isinstance(c.func, ast.Name) and c.func.id == fnname for c in _calls(f.node))
+        fx = bool(adds) and (all(_enclosed_by_while(f.node, a) for a in adds) or recursive)
+        rep.check(fx, "C15.R5", f"{fnname}: scope computed to a fixed point", "the scan that adds stages is repeated (while-loop / recursion) until no stage is added"
+                  if fx else "stages are added in one sweep over execution.stages: a stage declared before its prerequisite is never re-examined, so the re-arm set depends on declaration order", tv.relpath, adds[0].lineno if adds else f.node.lineno, disc=f"fixpoint:{fnname}")
     skip_guard = [n for n in ast.walk(on) if isinstance(n, ast.If) and norm(n.test) == "skipped.status == WorkflowStatus.NOT_STARTED"]
     rep.check(bool(skip_guard) and any("reset_stage_to_skipped" in norm(s) for s in skip_guard[0].body), "C15.R5", "forward jump skips only NOT_STARTED stages", "if skipped.status == NOT_STARTED: mark skipped", "src/stabilize/handlers/jump_to_stage/handler.py", skip_guard[0].lineno if skip_guard else on.lineno, disc="skip-guard")
     fwd = [n for n in ast.walk(on) if isinstance(n, ast.If) and norm(n.test) == "not is_backward_jump" and any("get_skipped_stages" in norm(s) for s in n.body)]
